@@ -97,8 +97,14 @@ def probe_cls(t):
     return int(t.split(":", 1)[1].split("#")[0])
 
 
+def is_own_panic(outcome):
+    """a panic raised by the container itself (not the injected user-code panic): the properties say
+    THAT these situations panic, not with which message — the message text is the model's business."""
+    return outcome.startswith("panic:") and outcome != "panic:inject"
+
+
 def is_overflow(outcome):
-    return outcome in ("panic:overflow", "panic:oob")
+    return is_own_panic(outcome)
 
 
 def find(ents, cls):
@@ -250,7 +256,7 @@ def dict_step(case, reg, toks, t, fam, ids, fails):
             want_ret("1" if e else "0")
         elif op in ("index", "index_mut"):
             if e is None:
-                if oc != "panic:noentry":
+                if not is_own_panic(oc):
                     fails.append("%s %s of a missing key ended %s instead of the no-entry panic" % (reg, op, oc))
             else:
                 want_ret("V%d.%d" % (e[2], e[3] + add))
@@ -1050,7 +1056,7 @@ def gdm_step(case, reg, toks, t, fails):
     classes = [probe_cls(x) for x in reqs]
     dup_present = any(classes.count(c) > 1 and find(pre, c) is not None for c in classes)
     if dup_present:
-        if t["outcome"] != "panic:overlap":
+        if not is_own_panic(t["outcome"]):
             fails.append("%s get_disjoint_mut with a present key requested twice ended %s instead of panicking" % (reg, t["outcome"]))
         return True
     if len(set(classes)) != len(classes):
@@ -1162,7 +1168,7 @@ def run(prop, ops_path, impl_path, profile):
                     classes = [probe_cls(x) for x in toks[3].strip("[]").split(",") if x]
                     dup_present = any(classes.count(c) > 1 and find(pre, c) is not None for c in classes)
                     if dup_present and toks[1] == "gdm":
-                        if t["outcome"] != "panic:overlap":
+                        if not is_own_panic(t["outcome"]):
                             fails.append("%s get_disjoint_mut (zero-sized values) with a present key requested twice ended %s "
                                          "with %s instead of panicking" % (reg, t["outcome"], t["ret"]))
                     elif len(set(classes)) == len(classes) and t["outcome"] == "ok":
